@@ -26,6 +26,11 @@ structure Dim where
   marker : Bool := false                 -- "THIS_IS_VARIABLE_SIZE_ARRAY" occurs in `size`
   deriving Repr, Inhabited
 
+/-- `re.match(r"\w+\Z", expr)`: letters, digits and underscores only -/
+def isWord (s : String) : Bool := !s.isEmpty && s.toList.all (fun c => c.isAlphanum || c == '_')
+
+def factor (s : String) : String := if isWord s then s else "(" ++ s ++ ")"
+
 def capitalize (s : String) : String :=
   match s.toList with
   | [] => ""
@@ -37,8 +42,9 @@ def isarMembers (name type : String) (optional : Bool) (dim : Option Dim) (dynam
   match dim with
   | none => [{ name := name, type := type, optional := optional }]
   | some d =>
+    -- `factor`: an expression is parenthesised before it is multiplied (a bare name or number is not)
     let size := match d.size, d.size2 with
-      | some s, some s2 => some (s ++ "*" ++ s2)
+      | some s, some s2 => some (factor s ++ "*" ++ factor s2)
       | s, _ => s
     let enabler : List PM := if optional then [{ name := "has_" ++ name, type := "u32" }] else []
     enabler ++
@@ -69,7 +75,7 @@ inductive Action
   | rename (member newName : String)
   deriving Repr, Inhabited
 
-inductive PErr | memberNotFound | lenNotFound | notLast | notFixed | badSize
+inductive PErr | memberNotFound | lenNotFound | notLast | notFixed | badSize | duplicate
   deriving DecidableEq, Repr
 
 def findIdx (ms : List PM) (n : String) : Option Nat := ms.findIdx? (·.name == n)
@@ -101,7 +107,7 @@ def applyAction (ms : List PM) : Action → Except PErr (List PM)
   | .dynamic m l => match findIdx ms m with
     | some i =>
       if (ms.take i).any (·.name == l) then
-        .ok (modifyAt ms i fun x => { x with bound := some l, size := none, optional := false })
+        .ok (modifyAt ms i fun x => { x with bound := some l, size := none, greedy := false, optional := false })
       else .error .lenNotFound
     | none => .error .memberNotFound
   | .greedy m => match findIdx ms m with
@@ -113,7 +119,7 @@ def applyAction (ms : List PM) : Action → Except PErr (List PM)
   | .static m s => match findIdx ms m with
     | some i =>
       if nonPositiveInt s then .error .badSize
-      else .ok (modifyAt ms i fun x => { x with bound := none, size := some s, optional := false })
+      else .ok (modifyAt ms i fun x => { x with bound := none, size := some s, greedy := false, optional := false })
     | none => .error .memberNotFound
   | .limited m l => match findIdx ms m with
     | some i =>
@@ -133,6 +139,16 @@ def applyAll (ms : List PM) : List Action → Except PErr (List PM)
   | a :: r => match applyAction ms a with
     | .ok ms' => applyAll ms' r
     | .error e => .error e
+
+def uniqNames : List PM → Bool
+  | [] => true
+  | m :: r => !(r.any (·.name == m.name)) && uniqNames r
+
+/-- patch.patch: the rules of one definition are applied in order, then `_check_members_duplication` (since the repair of D94) -/
+def applyRules (ms : List PM) (as : List Action) : Except PErr (List PM) :=
+  match applyAll ms as with
+  | .ok ms' => if as.isEmpty || uniqNames ms' then .ok ms' else .error .duplicate
+  | .error e => .error e
 
 end Patch
 end Prophy
